@@ -152,5 +152,7 @@ func goArrayDelete(obj *object, name string, throw bool) bool {
 		return obj.runtime.typeErrorResult(throw)
 	}
 
-	return obj.delete(name, throw)
+	// Not an element: an ordinary property of the JavaScript object (obj.delete
+	// would dispatch back to this function and recurse without bound).
+	return objectDelete(obj, name, throw)
 }
